@@ -92,6 +92,13 @@ def confirm(cid, srcdir, skip_suite=False):
                "what_i_ran": {"demo on unmodified worktree": res["demo_unmodified"], "demo with the patch": res["demo_modified"],
                               "whole suite with the patch": res.get("suite"), "all 20 checks against the patched tree (run.py --src)": "see caught_by"},
                "caught_by": res["caught_by"]}
+        if meta.get("rebased"):
+            out["rebased"] = meta["rebased"]
+        if meta.get("side_observations_unmodified_tree"):
+            out["side_observations_unmodified_tree"] = meta["side_observations_unmodified_tree"]
+        orig = os.path.join(srcdir, "patch.orig.diff")
+        if os.path.exists(orig):
+            shutil.copy(orig, os.path.join(dst, "patch.orig.diff"))
         json.dump(out, open(os.path.join(dst, "meta.json"), "w"), indent=1)
     return res
 
